@@ -1,76 +1,518 @@
-"""C08 — validation and the typed view (DESIGN §5 C08)."""
+"""C08 — validation and the typed view (DESIGN §5 C08).
+
+Written against the normal form (VIEW = 'norm'): an adaptor chain with closures and the `for` loop it
+stands for look the same here.  The rules are formulated on dataflow (which field a key / receiver /
+operand derives from, which call's result guards which exit) and on tables of equivalent idioms
+(one comment per entry); they do not count syntactic items.
+"""
 from .common import *
-from .C05 import bound_default_table
+
+VIEW = 'norm'
 
 INST = 'v1::Instance'; PI = 'v1::ParametricInstance'; DV = 'v1::DecisionVariable'; CON = 'v1::Constraint'; RC = 'v1::RemovedConstraint'
 
 
-def lit(a):
-    return a['v'].strip('"') if a['k'] == 'const' else None
+def short(ty):
+    return ty.split('::')[-1]
 
 
-def insert_guards(ctx, rule, body, set_ty_re, specs):
-    """specs: list of (name, loop field (adt, field), key field (adt, field)).  Each loop inserts the key
-    of every element into ONE shared set and a `false` result is an error."""
-    ins = [c for c in body.calls if c.item == 'insert' and re.search(set_ty_re, c.name)]
-    roots = set()
-    for name, (ladt, lfield), key in specs:
-        loops = loops_over(ctx, body, ladt, lfield)
-        mine = [(lo, c) for lo in loops for c in ins if c.bb in lo[4] and key in T.access_path(body, c.args[1])[0]]
-        ctx.check(len(mine) == 1, '%s/%s/insert' % (rule, name), 'T-GUARD', body.name, 'expected one `set.insert(%s.%s)` in a loop over self.%s, found %d' % (key[0].split('::')[-1], key[1], lfield, len(mine)), body.site())
-        for lo, c in mine:
-            ok = any(g.requires(True) for g in T.guards_from_call(body, c))
-            ctx.check(ok, '%s/%s/duplicate-is-error' % (rule, name), 'T-GUARD', body.name, 'the result of insert is not tested (a duplicate id is accepted)', body.site(c.bb))
-            via = {c.bb}
-            for sb, sm, nn in option_field_tests(body, RC, 'constraint'):
-                if sb in lo[4]: via.add(nn)
-            for x in body.calls:
-                if x.bb in lo[4] and x.item == 'as_ref' and 'Option::<v1::Constraint>' in x.name:
-                    for sb2, m2, els2 in T.option_arms(body, x.dst['l']): via.add(m2.get(0, els2))
-            ctx.check(T.must_pass(body, lo[2], {lo[1]}, via), '%s/%s/every-element' % (rule, name), 'T-LOOPMUST', body.name, 'an element can skip the uniqueness test', body.site(c.bb))
-            si = ctx.S.slice_operand(body, lo[0].args[0])
-            restr = sorted({x.item for x in si.call_objs if x.item in RESTRICTING and 'Iterator' in (x.trait or '')})
-            ctx.check(not restr and all(body.dominates(lo[1], e) for e in body.strict_ok_exits()), '%s/%s/all-elements' % (rule, name), 'T-LOOPMUST', body.name, 'loop is restricted (%s) or does not dominate the Ok-exit' % restr, body.site(c.bb))
-            roots.add(T.access_path(body, c.args[0], transparent=T.TRANSPARENT_NOCLONE)[1])
+# =============================================================================================
+# path-sensitive reachability: short-circuit bools (as templates.reach_cp) + the variant of
+# Option / Result / ControlFlow locals built on the path (`Some(x)`, `Err(e)`, `from_residual`, `?`)
+# =============================================================================================
+_ENUM_VARIANT = (('Option::None', 'Option', 0), ('Option::Some', 'Option', 1), ('Result::Ok', 'Result', 0), ('Result::Err', 'Result', 1),
+                 ('ControlFlow::Continue', 'ControlFlow', 0), ('ControlFlow::Break', 'ControlFlow', 1))
+
+
+def _agg_variant(adt):
+    for suf, fam, idx in _ENUM_VARIANT:
+        if adt.endswith(suf): return ('E', fam, idx)
+    return None
+
+
+def _family_of_name(nm):
+    if nm.startswith('<std::result::Result') or nm.startswith('<core::result::Result'): return 'Result'
+    if nm.startswith('<std::option::Option') or nm.startswith('<core::option::Option'): return 'Option'
+    return None
+
+
+def _term_item(t):
+    return (t.get('ri') or {}).get('item')
+
+
+def _residual_variant(t):
+    """value of `dst = FromResidual::from_residual(r)`: always the failure variant of the family"""
+    if _term_item(t) != 'from_residual': return None
+    fam = _family_of_name(t['r'] or t['f'])
+    if fam == 'Result': return ('E', 'Result', 1)
+    if fam == 'Option': return ('E', 'Option', 0)
+    return None
+
+
+def _branch_of(t, v):
+    """value of `dst = Try::branch(x)` when x holds variant v"""
+    if not T.TRY_BRANCH.search(t['r'] or t['f']) or v is None or v[0] != 'E': return None
+    if v[1] == 'Result': return ('E', 'ControlFlow', v[2])            # Ok -> Continue, Err -> Break
+    if v[1] == 'Option': return ('E', 'ControlFlow', 1 - v[2])        # Some -> Continue, None -> Break
+    return None
+
+
+def _whole(o):
+    return o['pl']['l'] if o['k'] in ('copy', 'move') and not o['pl']['p'] else None
+
+
+def _vp_tracked(body):
+    t = getattr(body, '_c08_vp', None)
+    if t is not None: return t
+    bools = set(T._cp_tracked(body)); mb = T._mut_borrowed(body)
+    enums = set()
+    for bi, st in body.stmts():
+        d = st['dst']; rv = st['rv']
+        if not d['p'] and d['l'] not in mb and rv['k'] == 'agg' and _agg_variant(rv['adt']): enums.add(d['l'])
+    for c in body.calls:
+        if not c.dst['p'] and c.dst['l'] not in mb and _residual_variant(c.term): enums.add(c.dst['l'])
+    changed = True
+    while changed:
+        changed = False
+        for bi, st in body.stmts():
+            d = st['dst']; rv = st['rv']
+            if d['p'] or d['l'] in enums or d['l'] in mb: continue
+            if rv['k'] == 'use' and _whole(rv['ops'][0]) in enums: enums.add(d['l']); changed = True
+        for c in body.calls:
+            if c.dst['p'] or c.dst['l'] in enums or c.dst['l'] in mb: continue
+            if T.TRY_BRANCH.search(c.name) and c.args and _whole(c.args[0]) in enums: enums.add(c.dst['l']); changed = True
+    discrs = set()
+    for bi, st in body.stmts():
+        d = st['dst']; rv = st['rv']
+        if not d['p'] and rv['k'] == 'discr' and not rv['pl']['p'] and rv['pl']['l'] in enums: discrs.add(d['l'])
+    body._c08_vp = (bools, enums, discrs)
+    return body._c08_vp
+
+
+def reach_vp(body, starts, stop=()):
+    """forward reachability; a switch on a bool / discriminant whose value is known on this path follows
+    only the matching target.  Over-approximates (falls back to plain reachability when too many states)."""
+    key = (tuple(sorted(starts)), tuple(sorted(stop)))
+    memo = body.__dict__.setdefault('_c08_reach', {})
+    if key in memo: return memo[key]
+    bools, enums, discrs = _vp_tracked(body)
+    tracked = bools | enums | discrs
+    if not tracked:
+        memo[key] = body.reach(starts, stop); return memo[key]
+    seen = set(); out = set(); work = [(s, frozenset()) for s in starts if s not in stop]
+    while work:
+        bi, env = work.pop()
+        if (bi, env) in seen: continue
+        seen.add((bi, env)); out.add(bi)
+        if len(seen) > 60000:
+            memo[key] = body.reach(starts, stop); return memo[key]
+        e = dict(env); blk = body.blocks[bi]
+        for st in blk['st']:
+            if 'dst' not in st: continue
+            d = st['dst']; l = d['l']
+            if l not in tracked: continue
+            if d['p']: e.pop(l, None); continue
+            rv = st['rv']; k = rv['k']; o = rv['ops'][0] if rv.get('ops') else None
+            v = None
+            if k == 'use' and o['k'] == 'const' and o['v'] in ('true', 'false') and l in bools: v = (o['v'] == 'true')
+            elif k == 'use' and _whole(o) is not None: v = e.get(_whole(o))
+            elif k == 'un' and rv['op'] == 'Not' and _whole(o) is not None and isinstance(e.get(_whole(o)), bool): v = not e[_whole(o)]
+            elif k == 'agg': v = _agg_variant(rv['adt'])
+            elif k == 'discr' and not rv['pl']['p']:
+                x = e.get(rv['pl']['l'])
+                if isinstance(x, tuple) and x[0] == 'E': v = ('D', x[2])
+            if v is None: e.pop(l, None)
+            else: e[l] = v
+        t = blk['term']; succs = body.succ(bi)
+        if t['k'] == 'call':
+            dl = t['dst']['l']
+            if dl in tracked:
+                v = None
+                if not t['dst']['p']:
+                    a0 = _whole(t['args'][0]) if t['args'] else None
+                    if T.NOT_CALL.search(t['r'] or t['f']) and isinstance(e.get(a0), bool): v = not e[a0]
+                    elif _residual_variant(t): v = _residual_variant(t)
+                    elif a0 is not None: v = _branch_of(t, e.get(a0))
+                if v is None: e.pop(dl, None)
+                else: e[dl] = v
+        elif t['k'] == 'switch' and t['d']['k'] != 'const' and not t['d']['pl']['p'] and t['d']['pl']['l'] in e:
+            x = e[t['d']['pl']['l']]
+            val = (1 if x else 0) if isinstance(x, bool) else (x[1] if x[0] == 'D' else None)
+            if val is not None:
+                m = {vv: tg for vv, tg in t['ts']}
+                succs = [m.get(val, t['else'])]
+        fe = frozenset(e.items())
+        for s in succs:
+            if s in stop or body.blocks[s]['cleanup']: continue
+            work.append((s, fe))
+    memo[key] = out
+    return out
+
+
+class Guard:
+    """a two-way decision (true_bb when the predicate holds, false_bb otherwise) with path-sensitive sides"""
+    def __init__(self, body, switch_bb, true_bb, false_bb):
+        self.body = body; self.switch_bb = switch_bb; self.true_bb = true_bb; self.false_bb = false_bb
+        oks = body.strict_ok_exits(); errs = body.err_exits()
+        def side(t):
+            if t is None: return dict(ok=False, err=False, blocks=set())
+            r = reach_vp(body, [t])
+            return dict(ok=bool(r & oks), err=bool(r & errs), blocks=r)
+        self.t = side(true_bb); self.f = side(false_bb)
+
+    def requires(self, polarity):
+        """the Ok-exits are reachable only when predicate == polarity; the other side reaches an Err-exit"""
+        a, b_ = (self.t, self.f) if polarity else (self.f, self.t)
+        return a['ok'] and not b_['ok'] and b_['err']
+
+    def dominates_ok_exits(self):
+        b = self.body
+        return all(b.dominates(self.switch_bb, e) for e in b.strict_ok_exits())
+
+    def only(self, polarity):
+        """blocks reachable on the `polarity` side only"""
+        a, b_ = (self.t, self.f) if polarity else (self.f, self.t)
+        return a['blocks'] - b_['blocks']
+
+    def describe(self):
+        return 'switch bb%d: true->bb%s(ok=%s,err=%s) false->bb%s(ok=%s,err=%s)' % (self.switch_bb, self.true_bb, self.t['ok'], self.t['err'], self.false_bb, self.f['ok'], self.f['err'])
+
+
+def guards_of_local(body, local):
+    out = []
+    for sb, neg in T.bool_flow(body, local):
+        tt, ft = T.switch_sides(body, sb, neg)
+        out.append(Guard(body, sb, tt, ft))
+    return out
+
+
+def guards_of_call(body, call):
+    return guards_of_local(body, call.dst['l'])
+
+
+def variant_guards(body, local, variant, proj=None):
+    """`match` / `if let` / let-else on an enum local: Guard whose predicate is `local is variant #variant`"""
+    out = []
+    for sb, m, els in T.option_arms(body, local, proj):
+        yes = m.get(variant, els)
+        others = {tg for v, tg in m.items() if v != variant}
+        if body.blocks[els]['term']['k'] != 'unreachable': others.add(els)
+        others = sorted(others - {yes})
+        out.append(Guard(body, sb, yes, others[0] if others else None))
+    return out
+
+
+# ------------------------------------------------------------------------------- `?` / error flow (path-sensitive twin of templates.errflow)
+def errflow_vp(body, local, depth=0, none_variant=0):
+    res = []
+    if depth > 8: return [('bad', 'adaptor chain too deep')]
+    if local == 0: return [('ok', 'returned')]
+    oks = body.strict_ok_exits()
+    uses = body.uses.get(local, ())
+    if not uses: return [('bad', 'result unused (dropped)')]
+    for kind, bi, x in uses:
+        if kind == 'call':
+            name = x.name
+            if T.TRY_BRANCH.search(name):
+                arms = T.try_arms(body, local)
+                if arms:
+                    if reach_vp(body, [arms[1]]) & oks: res.append(('bad', 'Break arm of ? reaches an Ok-exit'))
+                    else: res.append(('ok', '?'))
+                else: res.append(('bad', 'Try::branch without switch'))
+            elif T.ERR_ADAPTORS.search(name):
+                res += [(k, '%s -> %s' % (x.item, h)) for k, h in errflow_vp(body, x.dst['l'], depth + 1, none_variant)]
+            elif T.ERR_BAD.search(name): res.append(('bad', 'consumed by ' + x.item))
+            else: res.append(('bad', 'passed to ' + name[:60]))
+        elif kind == 'stmt':
+            rv = x['rv']
+            if rv['k'] == 'discr':
+                ty = body.locals[local].replace('&mut ', '').replace('&', '').strip()
+                fail = 1 if re.match(r'(std|core)::result::Result<', ty) else (0 if re.match(r'(std|core)::option::Option<', ty) else none_variant)     # Err is variant 1, None is variant 0
+                for k3, b3, sw in body.uses.get(x['dst']['l'], ()):
+                    if k3 != 'switch': continue
+                    m = {v: t for v, t in sw['ts']}
+                    if reach_vp(body, [m.get(fail, sw['else'])]) & oks: res.append(('bad', 'None/Err side of match reaches an Ok-exit'))
+                    else: res.append(('ok', 'match: None/Err side reaches only Err-exits'))
+            elif rv['k'] == 'use' and x['dst']['p'] == []:
+                o = rv['ops'][0]
+                if o['k'] in ('copy', 'move') and o['pl']['l'] == local and o['pl']['p'] == []:
+                    if x['dst']['l'] == 0: res.append(('ok', 'returned'))
+                    else: res += errflow_vp(body, x['dst']['l'], depth + 1, none_variant)
+            elif rv['k'] == 'ref':
+                res += errflow_vp(body, x['dst']['l'], depth + 1, none_variant)
+    if not res: res.append(('bad', 'no recognised consumer'))
+    return res
+
+
+def errflow_calls(ctx, rule, body, calls, what, none_variant=0):        # shadows common.errflow_calls
+    for c in calls:
+        res = errflow_vp(body, c.dst['l'], none_variant=none_variant)
+        ctx.counters['cfg_paths'] += 1
+        bad = [h for k, h in res if k == 'bad']
+        ctx.check(not bad, rule, 'T-ERRFLOW', body.name, '%s: %s' % (what, '; '.join(sorted(set(bad)))), body.site(c.bb), consumers=[h for k, h in res])
+
+
+# ------------------------------------------------------------------------------- small dataflow helpers
+def lit_of(body, a):
+    """string literal an operand evaluates to (directly, or through `let name = "lit"` / references)"""
+    if a['k'] == 'const': return a['v'].strip('"')
+    e = T.strip_wrappers(T.expr(body, a))
+    if e[0] == 'const' and e[1].startswith('"'): return e[1].strip('"')
+    if body.kind == 'closure' and e[0] == 'place' and e[1] == 1 and len(e[2]) == 1 and e[2][0][1].isdigit():
+        # captured variable: the operand of the closure aggregate in the parent
+        F = getattr(body, 'facts', None); pa = F.bodies.get(body.parent) if F is not None else None
+        if pa is not None:
+            for bi, st, name in pa.closures_created():
+                if name == body.name and int(e[2][0][1]) < len(st['rv']['ops']): return lit_of(pa, st['rv']['ops'][int(e[2][0][1])])
+    return None
+
+
+def place_of(body, operand_or_place):
+    """(root local, [(adt, field)..]) of an operand after peeling references, copies, `as_ref`-like adaptors and
+    the selection of a component of a freshly built tuple; None when it is not a plain place"""
+    o = operand_or_place if 'k' in operand_or_place else {'k': 'copy', 'pl': operand_or_place}
+    e = T.strip_wrappers(T.expr(body, o))
+    if e[0] == 'place': return e[1], list(e[2])
+    if e[0] == 'local': return e[1], []
+    if e[0] == 'proj': return None, list(e[2])          # field of a call result (e.g. of the loop item): no root local
+    return None
+
+
+SAME_OPTION = re.compile(r'::(as_ref|as_mut|as_deref|as_deref_mut|borrow|deref|clone|cloned|copied)$')
+
+
+def option_place(body, operand_or_place):
+    """like place_of, but peels only what keeps the Option itself (references, copies, as_ref-like adaptors, tuple
+    components) -- not `?`, ok_or, unwrap or a payload projection, after which the value is the payload"""
+    o = operand_or_place if 'k' in operand_or_place else {'k': 'copy', 'pl': operand_or_place}
+    e = T.expr(body, o)
+    while e[0] == 'call' and SAME_OPTION.search(T.strip_generics_tail(e[2])) and e[3]: e = e[3][0]
+    if e[0] == 'place': return e[1], list(e[2])
+    if e[0] == 'proj': return None, list(e[2])
+    return None
+
+
+def is_field(af, adt, field):
+    return af[1] == field and (af[0] == adt or af[0].endswith('::' + adt))
+
+
+def enclosing_loop(body, bb):
+    los = [lo for lo in T.for_loops(body) if bb in lo[4]]
+    return min(los, key=lambda lo: len(lo[4])) if los else None
+
+
+def collection_loop(ctx, body, bb, adt, field):
+    """the outermost loop around bb whose iterator derives from the collection field adt.field (inner loops, e.g. the
+    one a `flat_map` / `flatten` over an optional payload lowers to, iterate over parts of one element)"""
+    los = [lo for lo in T.for_loops(body) if bb in lo[4] and ctx.S.slice_operand(body, lo[0].args[0]).has_field(adt, field)]
+    return max(los, key=lambda lo: len(lo[4])) if los else None
+
+
+def root_of(body, operand):
+    return T.access_path(body, operand, transparent=T.TRANSPARENT_NOCLONE)[1]
+
+
+def closure_of_operand(ctx, body, operand):
+    e = T.expr(body, operand)
+    if e[0] == 'agg' and e[1].startswith('closure:'): return ctx.F.bodies.get(e[1][8:])
+    return None
+
+
+def option_tests(body, adt, field):
+    """every case split on the Option-typed message field adt.field -> Guard with predicate `is Some`.
+    Idioms (all lower to a discriminant switch or a bool test on a place that ends in the field):
+      match f {..} | if let Some(x) = f / &f / f.as_ref() / f.as_mut() | let Some(x) = f else {..}
+      match (f, other) {..}            (component of a freshly built tuple)
+      f.is_some() | f.is_none()"""
+    out = []
+    for bi in sorted(body.live):
+        t = body.blocks[bi]['term']
+        if t['k'] != 'switch' or t['d']['k'] == 'const': continue
+        for k2, b2, d in body.defs_of(t['d']['pl']['l']):
+            if k2 == 'stmt' and d['rv']['k'] == 'discr':
+                p = option_place(body, d['rv']['pl'])
+                if p and p[1] and is_field(p[1][-1], adt, field):
+                    m = {v: tg for v, tg in t['ts']}
+                    out.append(Guard(body, bi, m.get(1, t['else']), m.get(0, t['else'])))
+    for c in body.calls:
+        if c.item in ('is_some', 'is_none') and c.args and 'Option' in c.name:
+            p = option_place(body, c.args[0])
+            if p and p[1] and is_field(p[1][-1], adt, field):
+                for g in guards_of_call(body, c):
+                    out.append(g if c.item == 'is_some' else Guard(body, g.switch_bb, g.false_bb, g.true_bb))
+    # for x in f / f.iter() / .flat_map(|c| c.f.as_ref()) : the loop over the Option's iterator runs its body iff the field is set
+    for lo in T.for_loops(body):
+        fs, rootl, calls = T.access_path(body, lo[0].args[0])
+        if rootl is None or not fs == []: continue
+        for k, bi, d in body.defs_of(rootl):
+            if k == 'call' and _term_item(d) in ('into_iter', 'iter') and d['args']:
+                p = option_place(body, d['args'][0])
+                if p and p[1] and is_field(p[1][-1], adt, field):
+                    for sb, m, els in T.option_arms(body, lo[0].dst['l'])[:1]: out.append(Guard(body, sb, lo[2], lo[3]))
+    return out
+
+
+SET_RE = re.compile(r'(BTreeSet|HashSet)::<')
+MAP_RE = re.compile(r'(BTreeMap|HashMap)::<')
+
+
+def is_set_insert(c):
+    return c.item == 'insert' and len(c.args) == 2 and bool(SET_RE.search(c.name))
+
+
+def is_map_insert(c):
+    return c.item == 'insert' and len(c.args) == 3 and bool(MAP_RE.search(c.name))
+
+
+# =============================================================================================
+# C08.validate / C08.dup / C08.defined
+# =============================================================================================
+def payload_filter(ctx, body, call, optionals):
+    """`it.filter_map(|c| c.<opt>.as_ref())` drops exactly the elements whose optional payload is unset
+    (≡ `if let Some(c) = &c.<opt>` in the loop body): the closure returns the Option field of its argument"""
+    if call.item != 'filter_map' or len(call.args) != 2: return False
+    cb = closure_of_operand(ctx, body, call.args[1])
+    if cb is None: return False
+    p = place_of(cb, {'l': 0, 'p': []})
+    return bool(p and p[0] == 2 and len(p[1]) == 1 and any(is_field(p[1][0], a, f) for a, f in optionals))
+
+
+def insert_guards(ctx, rule, body, specs):
+    """Every id of the listed collections is inserted into ONE set and an `insert` that returns false is an error.
+    specs: (name, (adt, collection field), (adt, key field), optional payload (adt, field) or None).
+    The insert of a spec is identified by dataflow: its key derives from the key field of an element of the
+    collection (one insert may serve several specs: `a.iter().chain(b.iter())`)."""
+    ins = [c for c in body.calls if is_set_insert(c)]
+    optionals = [s[3] for s in specs if s[3]]
+    roots = set(); loops = []
+    for name, (ladt, lfield), (kadt, kfield), opt in specs:
+        cands = []
+        for c in ins:
+            s = ctx.S.slice_operand(body, c.args[1]); ctx.counters['slices'] += 1
+            if s.has_field(kadt, kfield) and s.has_field(ladt, lfield): cands.append(c)
+        ctx.check(bool(cands), '%s/%s/insert' % (rule, name), 'T-GUARD', body.name, 'no `set.insert(%s.%s)` of the elements of self.%s' % (short(kadt), kfield, lfield), body.site())
+        verdicts = []
+        for c in cands:
+            dup = any(g.requires(True) for g in guards_of_call(body, c))
+            lo = collection_loop(ctx, body, c.bb, ladt, lfield)
+            every = allel = False; why = 'the insert is not in a loop'
+            if lo is not None:
+                via = {c.bb}
+                if opt:
+                    for g in option_tests(body, opt[0], opt[1]):
+                        if g.switch_bb in lo[4] and g.false_bb is not None: via.add(g.false_bb)       # element without payload: nothing to insert
+                every = T.must_pass(body, lo[2], {lo[1]}, via)
+                si = ctx.S.slice_operand(body, lo[0].args[0])
+                restr = sorted({x.item for x in si.call_objs if x.item in RESTRICTING and 'Iterator' in (x.trait or '') and not payload_filter(ctx, body, x, optionals)})
+                allel = not restr and all(body.dominates(lo[1], e) for e in body.strict_ok_exits())
+                why = 'loop is restricted (%s) or does not dominate the Ok-exit' % restr
+            verdicts.append((dup and every and allel, c, dup, every, allel, why))
+        if not verdicts: continue
+        verdicts.sort(key=lambda v: not v[0])
+        good, c, dup, every, allel, why = verdicts[0]
+        ctx.check(dup, '%s/%s/duplicate-is-error' % (rule, name), 'T-GUARD', body.name, 'the result of insert is not tested (a duplicate id is accepted)', body.site(c.bb))
+        ctx.check(every, '%s/%s/every-element' % (rule, name), 'T-LOOPMUST', body.name, 'an element can skip the uniqueness test', body.site(c.bb))
+        ctx.check(allel, '%s/%s/all-elements' % (rule, name), 'T-LOOPMUST', body.name, why, body.site(c.bb))
+        roots.add(root_of(body, c.args[0]))
+        lo = collection_loop(ctx, body, c.bb, ladt, lfield)
+        if lo is not None: loops.append(lo)
     if len(specs) > 1:
-        ctx.check(len(roots) == 1, rule + '/one-shared-set', 'T-CARRY', body.name, 'the loops use different sets, so an id shared between them is not detected', body.site())
-    return roots
+        ctx.check(len(roots) == 1, rule + '/one-shared-set', 'T-CARRY', body.name, 'the ids are inserted into different sets, so an id shared between the collections is not detected', body.site())
+    return roots, loops
+
+
+def emptiness_guards(body, local, depth=5):
+    """(Guard, polarity) pairs with `guard == polarity  <=>  the set / iterator in local is empty`.  Idioms:
+      x.is_empty() | x.next().is_none() / .is_some() / `if let Some(_) = x.next()` | x.count() == 0 | x.len() == 0 (also != 0, > 0)
+      each also after x.collect::<C>() / .iter() / .into_iter() / .copied() / .cloned() / .peekable()"""
+    out = []
+    if depth <= 0: return out
+    for l in T.copies_of(body, local):
+        for kind, bi, x in body.uses.get(l, ()):
+            if kind != 'call' or x.arg_local(0) != l or x.args[0]['pl']['p'] not in ([], ['*']): continue
+            it = x.item
+            if it == 'is_empty': out += [(g, True) for g in guards_of_call(body, x)]
+            elif it in ('next', 'first', 'last', 'peek', 'min', 'max') and not x.dst['p']:
+                o = x.dst['l']
+                out += [(g, False) for g in variant_guards(body, o, 1)]
+                for l2 in T.copies_of(body, o):
+                    for k2, b2, y in body.uses.get(l2, ()):
+                        if k2 == 'call' and y.item in ('is_none', 'is_some') and y.arg_local(0) == l2:
+                            out += [(g, y.item == 'is_none') for g in guards_of_call(body, y)]
+            elif it in ('count', 'len') and not x.dst['p']:
+                for l2 in T.copies_of(body, x.dst['l'], through_refs=False):
+                    for k2, b2, st in body.uses.get(l2, ()):
+                        if k2 != 'stmt' or st['rv']['k'] != 'bin' or st['dst']['p']: continue
+                        a, b_ = st['rv']['ops']; op = st['rv']['op']
+                        zero_r = b_['k'] == 'const' and T.f64_const(b_['v']) == 0.0 and _whole(a) == l2
+                        zero_l = a['k'] == 'const' and T.f64_const(a['v']) == 0.0 and _whole(b_) == l2
+                        pol = True if (op == 'Eq' and (zero_r or zero_l)) else (False if (op == 'Ne' and (zero_r or zero_l)) or (op == 'Gt' and zero_r) or (op == 'Lt' and zero_l) else None)
+                        if pol is not None: out += [(g, pol) for g in guards_of_local(body, st['dst']['l'])]
+            elif it in ('collect', 'from_iter', 'iter', 'into_iter', 'copied', 'cloned', 'peekable') and not x.dst['p']:
+                out += emptiness_guards(body, x.dst['l'], depth - 1)
+    return out
+
+
+def subset_guard(ctx, rule, body, used_re, roots, def_loops, what):
+    """used ⊆ defined is required for Ok.  `used` derives from the call matching used_re, `defined` is the set the
+    definitions were inserted into (roots).  Equivalent idioms:
+      used.is_subset(&defined)                                       -- true required
+      defined.is_superset(&used)                                     -- true required
+      used.difference(&defined) is empty (see emptiness_guards)      -- `ensure!(d.is_empty())`, `d.next().is_none()`, `d.count() == 0`
+      used.iter().all(|x| defined.contains(x)) / for x in &used { if !defined.contains(x) { bail } }   -- every element, true required"""
+    def from_used(a): return ctx.S.slice_operand(body, a).has_call(used_re)
+    def is_defined(a): return root_of(body, a) in roots
+    found = []; seen_any = False
+    for c in body.calls:
+        if not SET_RE.search(c.name) or len(c.args) != 2: continue
+        if c.item == 'is_subset' or c.item == 'is_superset':
+            a, d = (c.args[0], c.args[1]) if c.item == 'is_subset' else (c.args[1], c.args[0])
+            seen_any = True
+            if from_used(a) and is_defined(d): found += [(g, True, c) for g in guards_of_call(body, c)]
+        elif c.item == 'difference':
+            seen_any = True
+            if from_used(c.args[0]) and is_defined(c.args[1]) and not c.dst['p']:
+                found += [(g, pol, c) for g, pol in emptiness_guards(body, c.dst['l'])]
+        elif c.item == 'contains' and is_defined(c.args[0]):
+            lo = enclosing_loop(body, c.bb)
+            if lo is None: continue
+            seen_any = True
+            if ctx.S.slice_operand(body, lo[0].args[0]).has_call(used_re) and T.must_pass(body, lo[2], {lo[1]}, {c.bb}) and lo[0].dst['l'] in ctx.S.slice_operand(body, c.args[1]).locals:
+                found += [(g, True, c) for g in guards_of_call(body, c) if all(body.dominates(lo[1], e) for e in body.strict_ok_exits())]
+    ctx.counters['cfg_paths'] += len(found)
+    def after_definitions(g):       # the test runs when every definition has been inserted: after (not inside) the inserting loops
+        return all(body.dominates(lo[1], g.switch_bb) and g.switch_bb not in lo[4] for lo in def_loops)
+    good = [(g, pol, c) for g, pol, c in found if g.requires(pol) and after_definitions(g) and (g.dominates_ok_exits() or enclosing_loop(body, c.bb) is not None)]
+    if good:
+        ctx.ok(rule, 'T-GUARD', body.site(good[0][2].bb), guard=what, shape=good[0][0].describe()); return good[0]
+    if not seen_any: ctx.bad(rule, 'T-GUARD', body.name, 'no test `%s` found' % what, body.site())
+    else: ctx.bad(rule, 'T-GUARD', body.name, 'test `%s` does not guard the Ok-exits (used ids from %s, defined = the set of inserted ids)' % (what, used_re), body.site(), seen='; '.join(g.describe() for g, p, c in found)[:300])
+    return None
 
 
 def validate_rules(ctx):
     R = 'C08.validate'
     for ty, subs in ((INST, ('validate_decision_variable_ids', 'validate_constraint_ids')), (PI, ('validate_ids', 'validate_constraint_ids'))):
-        b = ctx.method(R + '/%s/anchor' % ty.split('::')[-1], ty, 'validate')
+        b = ctx.method(R + '/%s/anchor' % short(ty), ty, 'validate')
         if b is None: continue
         for s in subs:
-            mustcall(ctx, R + '/%s/calls-%s' % (ty.split('::')[-1], s), b, lambda c, s=s: c.item == s and c.path.endswith('%s>::%s' % (ty.split('::')[-1], s)), 'self.%s()?' % s)
-    # ---- duplicates
+            mustcall(ctx, R + '/%s/calls-%s' % (short(ty), s), b, lambda c, s=s: c.item == s and c.path.endswith('%s>::%s' % (short(ty), s)), 'self.%s()?' % s)
+    # ---- duplicates, used ⊆ defined
     b = ctx.method('C08.dup/Instance::validate_decision_variable_ids/anchor', INST, 'validate_decision_variable_ids')
     if b is not None:
-        roots = insert_guards(ctx, 'C08.dup/Instance::decision_variables', b, r'BTreeSet::<u64>::insert', [('decision_variables', (INST, 'decision_variables'), (DV, 'id'))])
-        def is_subset(c): return c.item == 'is_subset' and 'BTreeSet' in c.name
-        def ops(c):
-            a = ctx.S.slice_operand(b, c.args[0]); d = T.access_path(b, c.args[1], transparent=T.TRANSPARENT_NOCLONE)[1]
-            return a.has_call(r'impl v1::Instance>::used_decision_variable_ids') and d in roots
-        guard(ctx, 'C08.defined/Instance/used-subset-of-defined', b, is_subset, True, 'used_ids.is_subset(&defined_ids)', operand_need=ops)
+        roots, loops = insert_guards(ctx, 'C08.dup/Instance::decision_variables', b, [('decision_variables', (INST, 'decision_variables'), (DV, 'id'), None)])
+        subset_guard(ctx, 'C08.defined/Instance/used-subset-of-defined', b, r'impl v1::Instance>::used_decision_variable_ids', roots, loops, 'used_ids.is_subset(&defined_ids)')
     b = ctx.method('C08.dup/Instance::validate_constraint_ids/anchor', INST, 'validate_constraint_ids')
     if b is not None:
-        insert_guards(ctx, 'C08.dup/Instance::constraints', b, r'HashSet::<u64>::insert|BTreeSet::<u64>::insert',
-                      [('active', (INST, 'constraints'), (CON, 'id')), ('removed', (INST, 'removed_constraints'), (CON, 'id'))])
+        insert_guards(ctx, 'C08.dup/Instance::constraints', b, [('active', (INST, 'constraints'), (CON, 'id'), None), ('removed', (INST, 'removed_constraints'), (CON, 'id'), (RC, 'constraint'))])
     b = ctx.method('C08.dup/ParametricInstance::validate_ids/anchor', PI, 'validate_ids')
     if b is not None:
-        roots = insert_guards(ctx, 'C08.dup/ParametricInstance::ids', b, r'BTreeSet::<u64>::insert',
-                              [('decision_variables', (PI, 'decision_variables'), (DV, 'id')), ('parameters', (PI, 'parameters'), ('v1::Parameter', 'id'))])
-        def is_subset(c): return c.item == 'is_subset' and 'BTreeSet' in c.name
-        def ops(c):
-            a = ctx.S.slice_operand(b, c.args[0]); d = T.access_path(b, c.args[1], transparent=T.TRANSPARENT_NOCLONE)[1]
-            return a.has_call(r'impl v1::ParametricInstance>::used_ids') and d in roots
-        guard(ctx, 'C08.defined/ParametricInstance/used-subset-of-defined', b, is_subset, True, 'used_ids.is_subset(&ids)', operand_need=ops)
+        roots, loops = insert_guards(ctx, 'C08.dup/ParametricInstance::ids', b, [('decision_variables', (PI, 'decision_variables'), (DV, 'id'), None), ('parameters', (PI, 'parameters'), ('v1::Parameter', 'id'), None)])
+        subset_guard(ctx, 'C08.defined/ParametricInstance/used-subset-of-defined', b, r'impl v1::ParametricInstance>::used_ids', roots, loops, 'used_ids.is_subset(&ids)')
         errflow_calls(ctx, 'C08.defined/ParametricInstance/used_ids-error', b, [c for c in b.calls if c.item == 'used_ids'], 'used_ids()')
     b = ctx.method('C08.dup/ParametricInstance::validate_constraint_ids/anchor', PI, 'validate_constraint_ids')
     if b is not None:
-        insert_guards(ctx, 'C08.dup/ParametricInstance::constraints', b, r'BTreeSet::<u64>::insert|HashSet::<u64>::insert',
-                      [('active', (PI, 'constraints'), (CON, 'id')), ('removed', (PI, 'removed_constraints'), (CON, 'id'))])
+        insert_guards(ctx, 'C08.dup/ParametricInstance::constraints', b, [('active', (PI, 'constraints'), (CON, 'id'), None), ('removed', (PI, 'removed_constraints'), (CON, 'id'), (RC, 'constraint'))])
     # ---- used-id coverage
     b = ctx.method('C08.defined/Instance::used_decision_variable_ids/anchor', INST, 'used_decision_variable_ids')
     if b is not None:
@@ -78,13 +520,14 @@ def validate_rules(ctx):
         rs = ctx.S.backslice(b, [0])
         for f in ('objective', 'constraints', 'removed_constraints'):
             ctx.check(rs.has_field(INST, f), 'C08.defined/Instance::used_ids/returned/' + f, 'T-CARRY', b.name, 'ids used by self.%s are not part of the returned set' % f, b.site())
-        for f, ty in (('constraints', CON), ('removed_constraints', RC)):
+        for f, opt in (('constraints', None), ('removed_constraints', (RC, 'constraint'))):
             for lo in loops_over(ctx, b, INST, f):
                 if f == 'constraints' and ctx.S.slice_operand(b, lo[0].args[0]).has_field(INST, 'removed_constraints'): continue
-                ext = [c for c in b.calls if c.bb in lo[4] and c.item == 'extend']
+                ext = [c for c in b.calls if c.bb in lo[4] and (c.item == 'extend' or is_set_insert(c))]
                 via = {c.bb for c in ext}
-                for sb, sm, nn in option_field_tests(b, RC, 'constraint'):
-                    if sb in lo[4]: via.add(nn)
+                if opt:
+                    for g in option_tests(b, opt[0], opt[1]):
+                        if g.switch_bb in lo[4] and g.false_bb is not None: via.add(g.false_bb)
                 ctx.check(bool(ext) and T.must_pass(b, lo[2], {lo[1]}, via), 'C08.defined/Instance::used_ids/every-%s' % f, 'T-LOOPMUST', b.name, 'an element of self.%s can be skipped' % f, b.site(lo[0].bb))
     b = ctx.method('C08.defined/ParametricInstance::used_ids/anchor', PI, 'used_ids')
     if b is not None:
@@ -95,20 +538,88 @@ def validate_rules(ctx):
     # Function::used_decision_variable_ids dispatches to every payload kind
     b = ctx.method('C08.defined/Function::used_ids/anchor', 'v1::Function', 'used_decision_variable_ids')
     if b is not None:
-        got = sorted({c.self_ty.split('::')[-1] for c in b.calls if c.item == 'used_decision_variable_ids' and (c.self_ty or '').startswith('v1::')})
+        got = sorted({short(c.self_ty) for c in b.calls if c.item == 'used_decision_variable_ids' and (c.self_ty or '').startswith('v1::')})
         ctx.check(got == ['Linear', 'Polynomial', 'Quadratic'], 'C08.defined/Function::used_ids/arms', 'T-BRANCHFX', b.name, 'payload kinds consulted: %s' % got, b.site())
     for ty, need in (('v1::Linear', [('v1::linear::Term', 'id')]), ('v1::Quadratic', [('v1::Quadratic', 'rows'), ('v1::Quadratic', 'columns'), ('v1::Quadratic', 'linear')]), ('v1::Polynomial', [('v1::Monomial', 'ids')])):
-        b = ctx.method('C08.defined/%s::used_ids/anchor' % ty.split('::')[-1], ty, 'used_decision_variable_ids')
+        b = ctx.method('C08.defined/%s::used_ids/anchor' % short(ty), ty, 'used_decision_variable_ids')
         if b is not None:
             rs = ctx.S.backslice(b, [0])
             miss = [f for a, f in need if not rs.has_field(a, f)]
-            ctx.check(not miss, 'C08.defined/%s::used_ids/fields' % ty.split('::')[-1], 'T-CARRY', b.name, 'id fields not reported: %s' % miss, b.site())
+            ctx.check(not miss, 'C08.defined/%s::used_ids/fields' % short(ty), 'T-CARRY', b.name, 'id fields not reported: %s' % miss, b.site())
+
+
+# =============================================================================================
+# C08.parse.required
+# =============================================================================================
+def literals_of(body, e, depth=3):
+    """string literals an expression tree is built from; a variable captured by a closure is looked up in the parent"""
+    have = set()
+    for y in T.expr_walk(e):
+        if y[0] == 'const': have.add(y[1].strip('"'))
+        elif y[0] == 'place' and y[1] == 1 and body.kind == 'closure' and y[2] and y[2][0][1].isdigit() and depth > 0:
+            F = getattr(body, 'facts', None); pa = F.bodies.get(body.parent) if F is not None else None
+            if pa is None: continue
+            for bi, st, name in pa.closures_created():
+                if name == body.name and int(y[2][0][1]) < len(st['rv']['ops']):
+                    have |= literals_of(pa, T.expr(pa, st['rv']['ops'][int(y[2][0][1])]), depth - 1)
+    return have
+
+
+def error_aggs(ctx, body, blocks, variant, consts):
+    """aggregates `RawParseError::<variant>` built in `blocks` whose operands contain all the string literals `consts`"""
+    out = []
+    for bi, st in body.stmts():
+        rv = st['rv']
+        if bi in blocks and rv['k'] == 'agg' and rv['adt'].endswith('RawParseError::' + variant):
+            have = set()
+            for o in rv['ops']: have |= literals_of(body, T.expr(body, o))
+            if all(k in have for k in consts): out.append((bi, st))
+    return out
+
+
+def required_field(ctx, rule_is, rule_prop, body, adt, field, variant, consts, what):
+    """an unset Option field adt.field ends in Err(RawParseError::<variant>{consts}).  Equivalent idioms:
+      f.ok_or(E)? | f.ok_or_else(|| E)?                                           -- adaptor + `?`
+      let Some(x) = f else { return Err(E.into()) } | match f { None => return Err(..), .. } | if f.is_none() { return Err(..) }
+                                                                                   -- the None side builds E and reaches only Err-exits"""
+    shapes = []          # (is E built for the unset case, does the unset case only fail, site bb)
+    for c in body.calls:
+        if c.item in ('ok_or', 'ok_or_else') and c.args:
+            p = place_of(body, c.args[0])
+            if not (p and p[1] and is_field(p[1][-1], adt, field)): continue
+            built = False
+            if c.item == 'ok_or':
+                ex = T.strip_wrappers(T.expr(body, c.args[1]))
+                if ex[0] == 'agg' and ex[1].endswith('RawParseError::' + variant):
+                    built = all(k in literals_of(body, ex) for k in consts)
+            else:
+                cb = closure_of_operand(ctx, body, c.args[1])
+                built = cb is not None and bool(error_aggs(ctx, cb, cb.live, variant, consts))
+            bad = [h for k, h in errflow_vp(body, c.dst['l']) if k == 'bad']
+            shapes.append((built, not bad, c.bb))
+    for g in option_tests(body, adt, field):
+        none_only = g.only(False)
+        built = bool(error_aggs(ctx, body, none_only, variant, consts))
+        fails = g.f['err'] and not g.f['ok']
+        shapes.append((built, fails, g.switch_bb))
+    ctx.counters['cfg_paths'] += len(shapes)
+    shapes.sort(key=lambda s: (not (s[0] and s[1]), not s[0]))
+    best = shapes[0] if shapes else (False, False, None)
+    site = body.site(best[2]) if best[2] is not None else body.site()
+    ctx.check(best[0], rule_is, 'T-ERRFLOW', body.name, what, site)
+    if shapes:
+        ctx.check(best[1], rule_prop, 'T-ERRFLOW', body.name, 'the unset case of `%s` does not end in an Err-exit on every path' % field, site)
+    tests = option_tests(body, adt, field)
+    for c in body.calls:
+        if c.item in ('unwrap_or_default', 'unwrap_or', 'unwrap_or_else', 'unwrap', 'expect') and c.args and (adt, field) in T.access_path(body, c.args[0])[0]:
+            if c.item in ('unwrap', 'expect') and any(c.bb in g.only(True) for g in tests): continue       # `if f.is_none() { return Err } .. f.unwrap()`: only reached when set
+            ctx.bad(rule_is.rsplit('/', 1)[0] + '/defaulted', 'T-ERRFLOW', body.name, 'missing field is %s' % ('defaulted by ' + c.item if c.item not in ('unwrap', 'expect') else 'a panic (%s), not an error' % c.item), body.site(c.bb))
 
 
 def enum_parse_rules(ctx):
     R = 'C08.parse.required'
     for ty, typed, name in (('v1::instance::Sense', 'instance::Sense', 'ommx.v1.instance.Sense'), ('v1::decision_variable::Kind', 'decision_variable::Kind', 'ommx.v1.decision_variable.Kind'), ('v1::Equality', 'constraint::Equality', 'ommx.v1.Equality')):
-        b = ctx.method(R + '/%s/anchor' % ty.split('::')[-1], ty, 'parse', trait='Parse')
+        b = ctx.method(R + '/%s/anchor' % short(ty), ty, 'parse', trait='Parse')
         adt = ctx.F.adt(ty)
         if b is None or adt is None: continue
         sw = None
@@ -116,61 +627,53 @@ def enum_parse_rules(ctx):
             t = b.blocks[bi]['term']
             if t['k'] == 'switch' and t['d']['k'] != 'const':
                 for k2, b2, d in b.defs_of(t['d']['pl']['l']):
-                    if k2 == 'stmt' and d['rv']['k'] == 'discr' and d['rv']['pl']['l'] == 1: sw = (bi, t)
-        ctx.check(sw is not None, R + '/%s/match' % ty.split('::')[-1], 'T-TABLE', b.name, 'no match on the enum value', b.site())
+                    if k2 == 'stmt' and d['rv']['k'] == 'discr':
+                        p = place_of(b, d['rv']['pl'])
+                        if p and p[0] == 1 and not p[1]: sw = (bi, t)
+        ctx.check(sw is not None, R + '/%s/match' % short(ty), 'T-TABLE', b.name, 'no match on the enum value', b.site())
         if sw is None: continue
         bi, t = sw; m = {v: tg for v, tg in t['ts']}
         table = {}
+        targets = {m.get(v['discr'], t['else']) for v in adt['variants']}
         for v in adt['variants']:
             tg = m.get(v['discr'], t['else'])
             r = b.reach([tg])
+            for t2 in targets - {tg}: r = r - b.reach([t2])          # blocks of this arm only
             res = None
             for b2, st in b.stmts():
-                if b2 == tg or (b2 in r and len(r) < 6):
-                    if st['rv']['k'] == 'agg' and st['rv']['adt'].startswith(typed + '::'): res = 'ok:' + st['rv']['adt'].split('::')[-1]
+                if b2 in r:
+                    if st['rv']['k'] == 'agg' and st['rv']['adt'].startswith(typed + '::'): res = 'ok:' + short(st['rv']['adt'])
                     if st['rv']['k'] == 'agg' and st['rv']['adt'].endswith('RawParseError::UnspecifiedEnum'):
-                        res = 'err:' + (lit(st['rv']['ops'][0]) or '?')
+                        res = 'err:' + (lit_of(b, st['rv']['ops'][0]) or '?')
             table[v['name']] = res
         want = {v['name']: ('err:' + name if v['name'] == 'Unspecified' else 'ok:' + v['name']) for v in adt['variants']}
-        ctx.check(table == want, R + '/%s/table' % ty.split('::')[-1], 'T-TABLE', b.name, 'enum conversion table is %s, expected %s' % (table, want), b.site(), table=str(table))
+        ctx.check(table == want, R + '/%s/table' % short(ty), 'T-TABLE', b.name, 'enum conversion table is %s, expected %s' % (table, want), b.site(), table=str(table))
     # unset oneof => UnsupportedV1Function
     b = ctx.method(R + '/Function/anchor', 'v1::Function', 'parse', trait='Parse')
     if b is not None:
-        oks = [c for c in b.calls if c.item in ('ok_or', 'ok_or_else') and ('v1::Function', 'function') in T.access_path(b, c.args[0])[0]]
-        okk = False
-        for c in oks:
-            ex = T.expr(b, c.args[1])
-            okk = ex[0] == 'agg' and ex[1].endswith('RawParseError::UnsupportedV1Function')
-        ctx.check(len(oks) == 1 and okk, R + '/Function/unset-oneof-is-error', 'T-ERRFLOW', b.name, 'an unset oneof is not reported as UnsupportedV1Function', b.site())
-        errflow_calls(ctx, R + '/Function/unset-oneof-propagates', b, oks, 'unset oneof')
-        aggs = sorted({st['rv']['adt'].split('::')[-1] for bi, st in b.stmts() if st['rv']['k'] == 'agg' and st['rv']['adt'].startswith('function::Function::')})
+        required_field(ctx, R + '/Function/unset-oneof-is-error', R + '/Function/unset-oneof-propagates', b, 'v1::Function', 'function', 'UnsupportedV1Function', (),
+                       'an unset oneof is not reported as UnsupportedV1Function')
+        aggs = sorted({short(st['rv']['adt']) for bi, st in b.stmts() if st['rv']['k'] == 'agg' and st['rv']['adt'].startswith('function::Function::')})
         ctx.check(aggs == ['Constant', 'Linear', 'Polynomial', 'Quadratic'], R + '/Function/arms', 'T-TABLE', b.name, 'typed variants produced: %s' % aggs, b.site())
     # required message fields
     for (ty, item, trait, targs), adt_, field, msg in (((('instance::Instance', 'try_from', 'TryFrom', ['v1::Instance'])), INST, 'objective', 'ommx.v1.Instance'),
                                                        ((CON, 'parse', 'Parse', None), CON, 'function', 'ommx.v1.Constraint'), ((RC, 'parse', 'Parse', None), RC, 'constraint', 'ommx.v1.RemovedConstraint')):
-        b = ctx.method(R + '/%s.%s/anchor' % (adt_.split('::')[-1], field), ty, item, trait=trait, targs=targs)
+        b = ctx.method(R + '/%s.%s/anchor' % (short(adt_), field), ty, item, trait=trait, targs=targs)
         if b is None: continue
-        oks = [c for c in b.calls if c.item in ('ok_or', 'ok_or_else') and (adt_, field) in T.access_path(b, c.args[0])[0]]
-        okk = False
-        for c in oks:
-            ex = T.expr(b, c.args[1])
-            if ex[0] == 'agg' and ex[1].endswith('RawParseError::MissingField'):
-                fl = [x for x in ex[2] if x[0] == 'const']
-                okk = any(x[1].strip('"') == field for x in fl) and any(y[0] == 'const' and y[1].strip('"') == msg for x in ex[2] for y in T.expr_walk(x))
-        ctx.check(len(oks) == 1 and okk, R + '/%s.%s/missing-is-MissingField' % (adt_.split('::')[-1], field), 'T-ERRFLOW', b.name,
-                  'a missing `%s` is not reported as MissingField{message: %s, field: %s}' % (field, msg, field), b.site())
-        errflow_calls(ctx, R + '/%s.%s/propagates' % (adt_.split('::')[-1], field), b, oks, 'missing ' + field)
-        for c in b.calls:
-            if c.item in ('unwrap_or_default', 'unwrap_or', 'unwrap_or_else', 'unwrap') and (adt_, field) in T.access_path(b, c.args[0])[0]:
-                ctx.bad(R + '/%s.%s/defaulted' % (adt_.split('::')[-1], field), 'T-ERRFLOW', b.name, 'missing field is defaulted by ' + c.item, b.site(c.bb))
+        required_field(ctx, R + '/%s.%s/missing-is-MissingField' % (short(adt_), field), R + '/%s.%s/propagates' % (short(adt_), field), b, adt_, field, 'MissingField', (msg, field),
+                       'a missing `%s` is not reported as MissingField{message: %s, field: %s}' % (field, msg, field))
 
 
+# =============================================================================================
+# C08.parse.bound / C08.parse.default
+# =============================================================================================
 def bound_rules(ctx):
     R = 'C08.parse.bound'
     b = ctx.method(R + '/Bound::parse/anchor', 'v1::Bound', 'parse', trait='Parse')
     if b is not None:
         news = [c for c in b.calls if c.path.endswith('Bound::new')]
-        ok = len(news) == 1 and T.access_path(b, news[0].args[0])[0] == [('v1::Bound', 'lower')] and T.access_path(b, news[0].args[1])[0] == [('v1::Bound', 'upper')]
+        ok = bool(news) and all(T.access_path(b, c.args[0])[0] == [('v1::Bound', 'lower')] and T.access_path(b, c.args[1])[0] == [('v1::Bound', 'upper')] for c in news)
+        ok = ok and all(any(b.dominates(c.bb, e) for c in news) for e in b.strict_ok_exits())
         ctx.check(ok, R + '/Bound::parse/through-new', 'T-MUSTCALL', b.name, 'v1::Bound is not converted by Bound::new(self.lower, self.upper)', b.site())
         errflow_calls(ctx, R + '/Bound::parse/error', b, news, 'Bound::new')
         ctx.check(not find_aggregates(b, 'bound::Bound'), R + '/Bound::parse/no-direct-construction', 'T-CARRY', b.name, 'Bound is constructed without validation', b.site())
@@ -181,24 +684,22 @@ def bound_rules(ctx):
             ok = T.strip_wrappers(T.expr(nb, chk.args[0])) == ('place', 1, []) and T.strip_wrappers(T.expr(nb, chk.args[1])) == ('place', 2, [])
             ctx.check(ok, R + '/Bound::new/check-args', 'T-CARRY', nb.name, 'check is not applied to (lower, upper)', nb.site(chk.bb))
         aggs = find_aggregates(nb, 'bound::Bound')
-        okf = False
+        okf = bool(aggs)
         for bi, st in aggs:
             d = dict(zip(st['rv']['fields'], st['rv']['ops']))
-            okf = T.strip_wrappers(T.expr(nb, d['lower'])) == ('place', 1, []) and T.strip_wrappers(T.expr(nb, d['upper'])) == ('place', 2, [])
-        ctx.check(len(aggs) == 1 and okf, R + '/Bound::new/fields', 'T-CARRY', nb.name, 'Bound { lower, upper } is not built from the arguments in order', nb.site())
+            okf = okf and T.strip_wrappers(T.expr(nb, d['lower'])) == ('place', 1, []) and T.strip_wrappers(T.expr(nb, d['upper'])) == ('place', 2, [])
+        ctx.check(okf, R + '/Bound::new/fields', 'T-CARRY', nb.name, 'Bound { lower, upper } is not built from the arguments in order', nb.site())
     cb = ctx.method(R + '/BoundError::check/anchor', 'bound::BoundError', 'check')
     if cb is not None:
         rows = set()
         for c in cb.calls:
             if c.item == 'is_nan':
-                for g in T.guards_from_call(cb, c):
-                    tr = T.reach_cp(cb, [g.true_bb])
-                    if (tr & cb.err_exits()) and not (tr & cb.strict_ok_exits()): rows.add(('nan', T.expr_str(T.strip_wrappers(T.expr(cb, c.args[0])))))
+                for g in guards_of_call(cb, c):
+                    if g.t['err'] and not g.t['ok']: rows.add(('nan', T.expr_str(T.strip_wrappers(T.expr(cb, c.args[0])))))
         for bi, st in float_cmp_sites(cb, ('Eq', 'Gt', 'Lt', 'Ge', 'Le')):
             l = T.strip_wrappers(T.expr(cb, st['rv']['ops'][0])); r = T.strip_wrappers(T.expr(cb, st['rv']['ops'][1]))
-            for g in T.guards_from_local(cb, st['dst']['l'], bi):
-                tr = T.reach_cp(cb, [g.true_bb])
-                if (tr & cb.err_exits()) and not (tr & cb.strict_ok_exits()):
+            for g in guards_of_local(cb, st['dst']['l']):
+                if g.t['err'] and not g.t['ok']:
                     rs_ = T.expr_str(r, 8); rs_ = '-inf' if 'NEG_INFINITY' in str(r) else ('+inf' if 'INFINITY' in str(r) else rs_)
                     rows.add((st['rv']['op'], T.expr_str(l), rs_))
         want = {('nan', '_1'), ('nan', '_2'), ('Eq', '_1', '+inf'), ('Eq', '_2', '-inf'), ('Gt', '_1', '_2')}
@@ -215,37 +716,169 @@ def bound_rules(ctx):
     ctx.ok('C08.parse.default/sweep', 'T-ERRFLOW', '', bodies=len(ctx.F.bodies))
     pb = ctx.method('C08.parse.default/DecisionVariable::parse/anchor', DV, 'parse', trait='Parse')
     if pb is not None:
-        tab = parse_bound_table(ctx, 'C08.parse.default/DecisionVariable::parse', pb)
+        parse_bound_table(ctx, 'C08.parse.default/DecisionVariable::parse', pb)
+
+
+def exact_adt(ctx, path):
+    return ctx.F.adts.get(path) or ctx.F.adt(path)
+
+
+def enum_tests(ctx, body, enum_ty, variant):
+    """tests `x is <enum_ty>::<variant>` on a value of the typed enum -> (blocks on the yes side only, blocks on the no side only).
+      x == E::V | x != E::V                    -- PartialEq::eq / ne on the enum, other operand a constant of that variant
+      match x { E::V => .., _ => .. } | matches!(x, E::V) | match (.., x) { (.., E::V) => .. }   -- switch on the discriminant, arm of V's discriminant (ADT table)"""
+    out = []
+    for c in body.calls:
+        if c.item in ('eq', 'ne') and re.search(re.escape(enum_ty) + '$', c.self_ty or ''):
+            vs = [enum_variant_of_operand(ctx, body, a) for a in c.args]
+            if any(v and v.endswith('%s::%s' % (short(enum_ty), variant)) for v in vs):
+                for g in guards_of_call(body, c):
+                    out.append((g.only(c.item == 'eq'), g.only(c.item != 'eq')))
+    adt = exact_adt(ctx, enum_ty)
+    dv = [v['discr'] for v in (adt or {}).get('variants', []) if v['name'] == variant]
+    if dv:
+        for bi in sorted(body.live):
+            t = body.blocks[bi]['term']
+            if t['k'] != 'switch' or t['d']['k'] == 'const': continue
+            for k2, b2, d in body.defs_of(t['d']['pl']['l']):
+                if k2 != 'stmt' or d['rv']['k'] != 'discr': continue
+                if not value_has_type(body, d['rv']['pl'], enum_ty): continue
+                m = {v: tg for v, tg in t['ts']}
+                yes = m.get(dv[0], t['else'])
+                nos = {tg for v, tg in m.items() if v != dv[0]} | {t['else']}
+                nos = {x for x in nos if x != yes and body.blocks[x]['term']['k'] != 'unreachable'}
+                ry = reach_vp(body, [yes]); rn = reach_vp(body, sorted(nos)) if nos else set()
+                out.append((ry - rn, rn - ry))
+    return out
+
+
+def value_has_type(body, pl, ty, depth=8):
+    """the value read from place pl (through copies, references and components of freshly built tuples) has type ty"""
+    for _ in range(depth):
+        fs = [p for p in pl['p'] if p != '*']
+        l = pl['l']
+        if not fs:
+            if body.locals[l].replace('&', '').strip() == ty: return True
+            defs = [d for d in body.defs_of(l) if not (d[0] == 'stmt' and d[2]['dst']['p'])]
+            if len(defs) != 1 or defs[0][0] != 'stmt': return False
+            rv = defs[0][2]['rv']
+            if rv['k'] == 'use' and rv['ops'][0]['k'] in ('copy', 'move'): pl = rv['ops'][0]['pl']; continue
+            if rv['k'] == 'ref': pl = rv['pl']; continue
+            return False
+        if len(fs) == 1 and isinstance(fs[0], dict) and fs[0].get('of') == 'tuple':
+            defs = [d for d in body.defs_of(l) if not (d[0] == 'stmt' and d[2]['dst']['p'])]
+            if len(defs) == 1 and defs[0][0] == 'stmt' and defs[0][2]['rv']['k'] == 'agg' and defs[0][2]['rv']['adt'] == 'tuple':
+                o = defs[0][2]['rv']['ops'][int(fs[0]['f'])]
+                if o['k'] in ('copy', 'move'): pl = o['pl']; continue
+        return False
+    return False
 
 
 def parse_bound_table(ctx, rule, b):
-    """Some(b) => parsed ; None & Binary => [0,1] ; None => Bound::default()"""
-    tests = option_field_tests(b, DV, 'bound')
-    ctx.check(len(tests) == 1, rule + '/bound-option-test', 'T-BRANCHFX', b.name, 'expected one match on self.bound, found %d' % len(tests), b.site())
-    if len(tests) != 1: return
-    sb, some_t, none_t = tests[0]
-    sr = T.reach_cp(b, [some_t]) - T.reach_cp(b, [none_t]); nr = T.reach_cp(b, [none_t]) - T.reach_cp(b, [some_t])
-    conv = [c for c in b.calls if c.bb in sr and c.item == 'parse_as' and 'v1::Bound as parse::Parse' in c.name]
-    tab = {'some': 'parsed' if conv else 'other'}
+    """Some(b) => parsed ; None & Binary => [0,1] ; None => Bound::default()   (as get_bounds / TryFrom<&DecisionVariable>)"""
+    tests = option_tests(b, DV, 'bound')
+    ctx.check(bool(tests), rule + '/bound-option-test', 'T-BRANCHFX', b.name, 'no case split on self.bound', b.site())
+    if not tests: return
+    kind_tests = enum_tests(ctx, b, 'decision_variable::Kind', 'Binary')
+    best = None
+    for g in tests:
+        sr = g.only(True); nr = g.only(False)
+        conv = [c for c in b.calls if c.bb in sr and c.item in ('parse_as', 'parse') and 'v1::Bound as parse::Parse' in c.name]
+        tab = {'some': 'parsed' if conv else 'other', 'none-binary': 'other', 'none-other': 'other'}
+        news = [c for c in b.calls if c.bb in nr and c.path.endswith('Bound::new')]
+        defs = [c for c in b.calls if c.bb in nr and c.item == 'default' and 'bound::Bound' in c.name]
+        for yes, no in kind_tests:
+            v01 = [tuple(T.f64_const(a['v']) if a['k'] == 'const' else None for a in x.args) for x in news if x.bb in yes]
+            if v01 == [(0.0, 1.0)] and not any(x.bb in yes for x in defs): tab['none-binary'] = (0.0, 1.0)
+            if any(x.bb in no for x in defs) and not any(x.bb in no for x in news): tab['none-other'] = 'Bound::default'
+        score = sum(1 for k, v in tab.items() if v != 'other')
+        if best is None or score > best[0]: best = (score, tab, conv, g)
+    score, tab, conv, g = best
     errflow_calls(ctx, rule + '/some/error', b, conv, 'bound parse')
-    news = [c for c in b.calls if c.bb in nr and c.path.endswith('Bound::new')]
-    defs = [c for c in b.calls if c.bb in nr and c.item == 'default' and 'bound::Bound' in c.name]
-    kinds = []
-    for c in b.calls:
-        if c.item in ('eq', 'ne') and re.search(r'decision_variable::Kind$', c.self_ty or ''):
-            kinds.append((c, [enum_variant_of_operand(ctx, b, a) for a in c.args]))
-    okbin = False
-    for c, vs in kinds:
-        if any(v and v.endswith('Kind::Binary') for v in vs):
-            for g in T.guards_from_call(b, c):
-                yes, no = (g.true_bb, g.false_bb) if c.item == 'eq' else (g.false_bb, g.true_bb)
-                yr = T.reach_cp(b, [yes]) - T.reach_cp(b, [no]); nn = T.reach_cp(b, [no]) - T.reach_cp(b, [yes])
-                v01 = [tuple(T.f64_const(a['v']) if a['k'] == 'const' else None for a in x.args) for x in news if x.bb in yr]
-                okbin = v01 == [(0.0, 1.0)] and any(x.bb in nn for x in defs) and not any(x.bb in nn for x in news)
-    tab['none-binary'] = (0.0, 1.0) if okbin else 'other'
-    tab['none-other'] = 'Bound::default' if okbin else 'other'
     ctx.check(tab == {'some': 'parsed', 'none-binary': (0.0, 1.0), 'none-other': 'Bound::default'}, rule + '/table', 'T-SIBLING', b.name,
-              'unset-bound table is %s; expected Some=>parsed, None+Binary=>[0,1], None=>Bound::default() as in get_bounds / TryFrom<&DecisionVariable>' % tab, b.site(), table=str(tab))
+              'unset-bound table is %s; expected Some=>parsed, None+Binary=>[0,1], None=>Bound::default() as in get_bounds / TryFrom<&DecisionVariable>' % tab, b.site(g.switch_bb), table=str(tab))
+
+
+# =============================================================================================
+# C08.parse.ids
+# =============================================================================================
+def entry_arms(body, c):
+    """arms of `match map.entry(k)`: (switch_bb, occupied_target, vacant_target)"""
+    out = []
+    for sb, m, els in T.option_arms(body, c.dst['l']):
+        kinds = {}
+        for v, tg in list(m.items()) + [(None, els)]:
+            for st in body.blocks[tg]['st']:
+                for pl in ([st['rv']['pl']] if 'rv' in st and 'pl' in st['rv'] else []) + [o['pl'] for o in (st.get('rv') or {}).get('ops', []) if o['k'] in ('copy', 'move')]:
+                    if pl['l'] == c.dst['l']:
+                        for p in pl['p']:
+                            if isinstance(p, dict) and p.get('dc') in ('Occupied', 'Vacant'): kinds[p['dc']] = tg
+        if 'Occupied' not in kinds or 'Vacant' not in kinds:
+            order = ('Vacant', 'Occupied') if 'btree_map' in c.name or 'BTreeMap' in c.name else ('Occupied', 'Vacant')      # declaration order of the std Entry enums
+            kinds = {order[0]: m.get(0, els), order[1]: m.get(1, els)}
+        out.append((sb, kinds['Occupied'], kinds['Vacant']))
+    return out
+
+
+def unique_insertions(ctx, body):
+    """sites where an element is stored in a map under its id and a repeated id is an error -> (storing bb, rejected?, call).
+      if map.insert(k, v).is_some() { Err } | .is_none() | if let Some(_) = map.insert(k, v) { Err }         -- the displaced value is tested
+      match map.entry(k) { Occupied(_) => Err, Vacant(e) => { e.insert(v); } }                             -- entry API
+      if map.contains_key(&k) { Err } ; map.insert(k, v)                                                    -- test, then store in the same map"""
+    out = []
+    oks = body.strict_ok_exits()
+    for c in body.calls:
+        if is_map_insert(c):
+            rej = False
+            for l in T.copies_of(body, c.dst['l']):
+                for kind, bi, y in body.uses.get(l, ()):
+                    if kind == 'call' and y.item in ('is_some', 'is_none') and y.arg_local(0) == l:
+                        rej = rej or any(g.requires(y.item == 'is_none') for g in guards_of_call(body, y))
+            rej = rej or any(g.requires(False) for g in variant_guards(body, c.dst['l'], 1))
+            if not rej:
+                root = root_of(body, c.args[0])
+                for k in body.calls:
+                    if k.item == 'contains_key' and MAP_RE.search(k.name) and root_of(body, k.args[0]) == root:
+                        for g in guards_of_call(body, k):
+                            if g.requires(False) and c.bb in g.f['blocks'] and c.bb not in g.only(True): rej = True
+            out.append((c.bb, rej, c))
+        elif c.item == 'entry' and MAP_RE.search(c.name) and not c.dst['p']:
+            for sb, occ, vac in entry_arms(body, c):
+                ro = reach_vp(body, [occ]); rv_ = reach_vp(body, [vac])
+                rej = not (ro & oks) and bool(ro & body.err_exits())
+                for y in body.calls:
+                    if y.item == 'insert' and 'VacantEntry' in y.name and y.bb in rv_ - ro and c.dst['l'] in ctx.S.slice_operand(body, y.args[0]).locals:
+                        out.append((y.bb, rej, c))
+    return out
+
+
+def unique_map_rule(ctx, rule, body, what):
+    sites = unique_insertions(ctx, body)
+    sites.sort(key=lambda s: not s[1])
+    ctx.check(bool(sites) and sites[0][1], rule + '/unique', 'T-GUARD', body.name, 'a repeated %s id is accepted' % what, body.site(sites[0][0]) if sites else body.site())
+    ok = False
+    if sites:
+        lo = enclosing_loop(body, sites[0][0])
+        if lo is not None:
+            src = ctx.S.slice_operand(body, lo[0].args[0])
+            ok = 1 in src.params and T.must_pass(body, lo[2], {lo[1]}, {sites[0][0]}) and all(body.dominates(lo[1], e) for e in body.strict_ok_exits())
+    ctx.check(ok, rule + '/every-element', 'T-LOOPMUST', body.name, 'an element can be dropped', body.site())
+
+
+def membership_guards(body):
+    """tests `k is a key of map` -> (Guard with predicate `is a key`, call).  Equivalent idioms:
+      map.contains_key(&k) | map.get(&k).is_some() / .is_none() | match map.get(&k) { Some(_) => .., None => .. } (also get_key_value / get_mut)"""
+    out = []
+    for c in body.calls:
+        if not MAP_RE.search(c.name) or len(c.args) != 2: continue
+        if c.item == 'contains_key': out += [(g, c) for g in guards_of_call(body, c)]
+        elif c.item in ('get', 'get_key_value', 'get_mut') and not c.dst['p']:
+            out += [(g, c) for g in variant_guards(body, c.dst['l'], 1)]
+            for l in T.copies_of(body, c.dst['l']):
+                for kind, bi, y in body.uses.get(l, ()):
+                    if kind == 'call' and y.item in ('is_some', 'is_none') and y.arg_local(0) == l:
+                        out += [(g if y.item == 'is_some' else Guard(body, g.switch_bb, g.false_bb, g.true_bb), c) for g in guards_of_call(body, y)]
+    return out
 
 
 def ids_rules(ctx):
@@ -253,69 +886,60 @@ def ids_rules(ctx):
     for fn, err in (('as_variable_id', 'UndefinedVariableID'), ('as_constraint_id', 'UndefinedConstraintID')):
         b = ctx.free_fn(R + '/%s/anchor' % fn, 'instance::' + fn)
         if b is None: continue
-        ck = [c for c in b.calls if c.item == 'contains_key']
-        ok = False
-        for c in ck:
-            for g in T.guards_from_call(b, c):
-                ok = ok or g.requires(True)
+        tests = membership_guards(b)
+        ok = any(g.requires(True) and T.access_path(b, c.args[0])[1] == 1 for g, c in tests)
+        for c in {id(c): c for g, c in tests}.values():
             ctx.check(T.access_path(b, c.args[0])[1] == 1, R + '/%s/table' % fn, 'T-CARRY', b.name, 'membership is not tested in the given table', b.site(c.bb))
         agg = [st for bi, st in b.stmts() if st['rv']['k'] == 'agg' and st['rv']['adt'].endswith('RawParseError::' + err)]
         ctx.check(ok and bool(agg), R + '/%s/undefined-is-error' % fn, 'T-GUARD', b.name, 'an id that is not a key of the table is not rejected with %s' % err, b.site())
     b = ctx.method(R + '/Instance/anchor', 'instance::Instance', 'try_from', trait='TryFrom', targs=['v1::Instance'])
     if b is not None:
-        av = [c for c in b.calls if c.item == 'as_variable_id']
+        # the key of every entry of decision_variable_dependency goes through as_variable_id and is stored under the checked id
+        av = [c for c in b.calls if c.item == 'as_variable_id' and len(c.args) == 2 and ctx.S.slice_operand(b, c.args[1]).has_field(INST, 'decision_variable_dependency')]
         ok = False
         for c in av:
-            lo = [l for l in T.for_loops(b) if c.bb in l[4]]
-            if lo and ctx.S.slice_operand(b, lo[0][0].args[0]).has_field(INST, 'decision_variable_dependency') and lo[0][0].dst['l'] in ctx.S.slice_operand(b, c.args[1]).locals:
-                ok = T.must_pass(b, lo[0][2], {lo[0][1]}, {c.bb})
-                ins = [x for x in b.calls if x.bb in lo[0][4] and x.item == 'insert' and 'HashMap' in x.name]
-                ctx.check(bool(ins) and c in ctx.S.slice_operand(b, ins[0].args[1]).call_objs, R + '/Instance/dependency-key-is-checked-id', 'T-CARRY', b.name, 'dependency is stored under an unchecked key', b.site(c.bb))
+            lo = enclosing_loop(b, c.bb)
+            if lo is None or not ctx.S.slice_operand(b, lo[0].args[0]).has_field(INST, 'decision_variable_dependency'): continue
+            ok = T.must_pass(b, lo[2], {lo[1]}, {c.bb}) and all(b.dominates(lo[1], e) for e in b.strict_ok_exits())
+            ins = [x for x in b.calls if x.bb in lo[4] and is_map_insert(x) and c in ctx.S.slice_operand(b, x.args[1]).call_objs]
+            ctx.check(bool(ins), R + '/Instance/dependency-key-is-checked-id', 'T-CARRY', b.name, 'dependency is stored under an unchecked key', b.site(c.bb))
         ctx.check(ok, R + '/Instance/dependency-keys-checked', 'T-LOOPMUST', b.name, 'dependency keys are not checked against the defined variables', b.site())
         errflow_calls(ctx, R + '/Instance/dependency-key-error', b, av, 'as_variable_id')
     # hints
     for ty, specs in (('v1::OneHot', [('constraint_id', 'as_constraint_id', False), ('decision_variables', 'as_variable_id', True)]),
                       ('v1::Sos1', [('binary_constraint_id', 'as_constraint_id', False), ('big_m_constraint_ids', 'as_constraint_id', True), ('decision_variables', 'as_variable_id', True)])):
-        b = ctx.method(R + '/%s/anchor' % ty.split('::')[-1], ty, 'parse', trait='Parse')
+        b = ctx.method(R + '/%s/anchor' % short(ty), ty, 'parse', trait='Parse')
         if b is None: continue
         for field, helper, listy in specs:
-            cs = [c for c in b.calls if c.item == helper and (ty, field) in ctx.S.slice_operand(b, c.args[1]).fields]
-            ctx.check(len(cs) == 1, R + '/%s.%s/checked' % (ty.split('::')[-1], field), 'T-MUSTCALL', b.name, '%s is not checked by %s' % (field, helper), b.site())
-            errflow_calls(ctx, R + '/%s.%s/error' % (ty.split('::')[-1], field), b, cs, helper)
+            cs = [c for c in b.calls if c.item == helper and len(c.args) == 2 and (ty, field) in ctx.S.slice_operand(b, c.args[1]).fields]
+            ctx.check(bool(cs), R + '/%s.%s/checked' % (short(ty), field), 'T-MUSTCALL', b.name, '%s is not checked by %s' % (field, helper), b.site())
+            errflow_calls(ctx, R + '/%s.%s/error' % (short(ty), field), b, cs, helper)
             for c in cs:
                 if listy:
-                    lo = [l for l in T.for_loops(b) if c.bb in l[4]]
-                    ctx.check(bool(lo) and T.must_pass(b, lo[0][2], {lo[0][1]}, {c.bb}), R + '/%s.%s/every-element' % (ty.split('::')[-1], field), 'T-LOOPMUST', b.name, 'an element can skip the check', b.site(c.bb))
-                    ins = [x for x in b.calls if lo and x.bb in lo[0][4] and x.item == 'insert' and 'BTreeSet' in x.name]
-                    okk = bool(ins) and any(g.requires(True) for g in T.guards_from_call(b, ins[0])) and c in ctx.S.slice_operand(b, ins[0].args[1]).call_objs
-                    ctx.check(okk, R + '/%s.%s/repeated-is-error' % (ty.split('::')[-1], field), 'T-GUARD', b.name, 'a repeated id is accepted', b.site(c.bb))
+                    lo = enclosing_loop(b, c.bb)
+                    ctx.check(lo is not None and T.must_pass(b, lo[2], {lo[1]}, {c.bb}) and all(b.dominates(lo[1], e) for e in b.strict_ok_exits()), R + '/%s.%s/every-element' % (short(ty), field), 'T-LOOPMUST', b.name, 'an element can skip the check', b.site(c.bb))
+                    # the checked id is inserted into a set and a repeated id is an error (insert false => Err)
+                    ins = [x for x in b.calls if lo is not None and x.bb in lo[4] and is_set_insert(x) and c in ctx.S.slice_operand(b, x.args[1]).call_objs]
+                    okk = any(g.requires(True) for x in ins for g in guards_of_call(b, x))
+                    ctx.check(okk, R + '/%s.%s/repeated-is-error' % (short(ty), field), 'T-GUARD', b.name, 'a repeated id is accepted', b.site(c.bb))
                 else:
-                    ctx.check(all(b.dominates(c.bb, e) for e in b.strict_ok_exits()), R + '/%s.%s/dominates' % (ty.split('::')[-1], field), 'T-MUSTCALL', b.name, 'check does not dominate the Ok-exit', b.site(c.bb))
+                    ctx.check(all(b.dominates(c.bb, e) for e in b.strict_ok_exits()), R + '/%s.%s/dominates' % (short(ty), field), 'T-MUSTCALL', b.name, 'check does not dominate the Ok-exit', b.site(c.bb))
     # removed constraints against the active map and their own map; duplicates in Vec parsers
     b = ctx.method(R + '/Vec<RemovedConstraint>/anchor', 'std::vec::Vec<v1::RemovedConstraint>', 'parse', trait='Parse')
     if b is not None:
-        ck = [c for c in b.calls if c.item == 'contains_key' and T.access_path(b, c.args[0])[1] == 2]
-        ok1 = any(g.requires(False) for c in ck for g in T.guards_from_call(b, c))
+        ok1 = any(g.requires(False) for g, c in membership_guards(b) if T.access_path(b, c.args[0])[1] == 2)       # param 2 = the active constraints
         ctx.check(ok1, R + '/Vec<RemovedConstraint>/not-an-active-id', 'T-GUARD', b.name, 'a removed constraint sharing its id with an active one is accepted', b.site())
-        ins = [c for c in b.calls if c.item == 'insert' and 'HashMap' in c.name]
-        ok2 = False
-        for c in ins:
-            for u in [x for x in b.calls if x.item == 'is_some' and x.args and T.access_path(b, x.args[0], transparent=T.TRANSPARENT_NOCLONE)[1] == c.dst['l']]:
-                ok2 = ok2 or any(g.requires(False) for g in T.guards_from_call(b, u))
-        ctx.check(ok2, R + '/Vec<RemovedConstraint>/unique', 'T-GUARD', b.name, 'a repeated removed-constraint id is accepted', b.site())
+        sites = unique_insertions(ctx, b)
+        ctx.check(any(s[1] for s in sites), R + '/Vec<RemovedConstraint>/unique', 'T-GUARD', b.name, 'a repeated removed-constraint id is accepted', b.site())
     for ty, what in (('std::vec::Vec<v1::Constraint>', 'constraint'), ('std::vec::Vec<v1::DecisionVariable>', 'variable')):
-        b = ctx.method(R + '/%s/anchor' % ty.split('::')[-1], ty, 'parse', trait='Parse')
+        b = ctx.method(R + '/%s/anchor' % short(ty), ty, 'parse', trait='Parse')
         if b is None: continue
-        ins = [c for c in b.calls if c.item == 'insert' and 'HashMap' in c.name]
-        ok2 = False
-        for c in ins:
-            for u in [x for x in b.calls if x.item == 'is_some' and x.args and T.access_path(b, x.args[0], transparent=T.TRANSPARENT_NOCLONE)[1] == c.dst['l']]:
-                ok2 = ok2 or any(g.requires(False) for g in T.guards_from_call(b, u))
-        ctx.check(ok2, R + '/%s/unique' % ty.split('::')[-1], 'T-GUARD', b.name, 'a repeated %s id is accepted' % what, b.site())
-        lo = [l for l in T.for_loops(b)]
-        ctx.check(len(lo) == 1 and bool(ins) and T.must_pass(b, lo[0][2], {lo[0][1]}, {ins[0].bb}), R + '/%s/every-element' % ty.split('::')[-1], 'T-LOOPMUST', b.name, 'an element can be dropped', b.site())
+        unique_map_rule(ctx, R + '/%s' % short(ty), b, what)
 
 
+# =============================================================================================
+# C08.parse.carry
+# =============================================================================================
 def carry_rules(ctx):
     R = 'C08.parse.carry'
     specs = [
@@ -326,33 +950,58 @@ def carry_rules(ctx):
                                                                                                      'decision_variable_dependency': 'decision_variable_dependency', 'parameters': 'parameters', 'description': 'description', 'constraint_hints': 'constraint_hints'}),
     ]
     for (ty, item, trait, targs), typed, src, fmap in specs:
-        b = ctx.method(R + '/%s/anchor' % typed.split('::')[-1], ty, item, trait=trait, targs=targs)
+        b = ctx.method(R + '/%s/anchor' % short(typed), ty, item, trait=trait, targs=targs)
         if b is None: continue
         aggs = find_aggregates(b, typed)
-        ctx.check(len(aggs) == 1, R + '/%s/aggregate' % typed.split('::')[-1], 'T-CARRY', b.name, 'expected one %s aggregate, found %d' % (typed, len(aggs)), b.site())
+        ctx.check(len(aggs) >= 1, R + '/%s/aggregate' % short(typed), 'T-CARRY', b.name, 'no %s aggregate is built' % typed, b.site())
         fields = ctx.F.adt_fields(typed) or []
-        ctx.check(set(fields) == set(fmap), R + '/%s/field-list' % typed.split('::')[-1], 'T-COVER', b.name, 'typed struct fields changed: %s' % sorted(set(fields) ^ set(fmap)), b.site())
+        ctx.check(set(fields) == set(fmap), R + '/%s/field-list' % short(typed), 'T-COVER', b.name, 'typed struct fields changed: %s' % sorted(set(fields) ^ set(fmap)), b.site())
         msg_fields = ctx.F.adt_fields(src) or []
-        ctx.check(set(msg_fields) == set(fmap.values()), R + '/%s/message-field-list' % typed.split('::')[-1], 'T-COVER', b.name, 'message fields without a typed counterpart: %s' % sorted(set(msg_fields) ^ set(fmap.values())), b.site())
-        for bi, st in aggs:
+        ctx.check(set(msg_fields) == set(fmap.values()), R + '/%s/message-field-list' % short(typed), 'T-COVER', b.name, 'message fields without a typed counterpart: %s' % sorted(set(msg_fields) ^ set(fmap.values())), b.site())
+        for bi, st in aggs:          # every aggregate that is built must carry every field
             for tf, mf in fmap.items():
                 op = agg_field_operand(st, tf)
                 if op is None: continue
                 s = slice_op(ctx, b, op)
-                own = sorted({f for a, f in s.fields if (a == src or a.endswith('::' + src)) })
+                own = sorted({f for a, f in s.fields if (a == src or a.endswith('::' + src))})
                 direct = [f for a, f in T.access_path(b, op)[0] if a == src]
                 ok = s.has_field(src, mf)
                 # simple copies must come from exactly the same-named field
                 if direct: ok = ok and direct == [mf]
-                ctx.check(ok, R + '/%s/%s' % (typed.split('::')[-1], tf), 'T-CARRY', b.name, 'typed field `%s` is not taken from message field `%s` (reads %s)' % (tf, mf, direct or own), b.site(bi))
+                ctx.check(ok, R + '/%s/%s' % (short(typed), tf), 'T-CARRY', b.name, 'typed field `%s` is not taken from message field `%s` (reads %s)' % (tf, mf, direct or own), b.site(bi))
+
+
+# =============================================================================================
+# C08.parse.path
+# =============================================================================================
+def receiver_field(ctx, fb, operand, msg_ty):
+    """the field (or prost getter) of the message msg_ty whose value `operand` is:
+      self.f / self.f.ok_or(..)? / self.f() (getter)                   -- the access path names it
+      an element of self.f  (`for x in self.f`, `self.f.into_iter().map(|x| ..)` in normal form)
+                                                                        -- the path ends in Iterator::next; the iterator derives from exactly one field
+      the payload of a tested Option field (`let Some(x) = self.f else ..`)  -- the path crosses the field"""
+    fs, rootl, calls = T.access_path(fb, operand)
+    named = [f for a, f in fs if a == msg_ty]
+    getter = [short(x) for x in calls if x.startswith(msg_ty + '::')]
+    src = named[:1] or getter[:1]
+    if src: return src
+    p = place_of(fb, operand)                # component of a freshly built tuple: `match (self.f, k) { (Some(x), _) => x.parse_as(..) }`
+    if p and [f for a, f in p[1] if a == msg_ty]: return [f for a, f in p[1] if a == msg_ty][:1]
+    if calls and re.search(r'Iterator>::next$', calls[-1]) and rootl is not None:
+        for k, bi, d in fb.defs_of(rootl):
+            if k == 'call' and d['args']:
+                s = ctx.S.slice_operand(fb, d['args'][0])
+                own = sorted({f for a, f in s.fields if a == msg_ty})
+                if len(own) == 1: return own
+    return []
 
 
 def path_rules(ctx):
     """C08.parse.path: parse_as(ctx, message, field): `field` names the field whose value is parsed, `message` the message type"""
     R = 'C08.parse.path'
-    n = 0
     for fb in ctx.F.bodies.values():
         if fb.kind == 'promoted': continue
+        if fb.name in getattr(ctx.F, 'inlined_closures', ()): continue          # its body stands in the parent now
         root = ctx.F.bodies.get(fb.parent, fb)
         self_ty = root.hdr.get('self') or ''
         targs = root.hdr.get('targs') or []
@@ -360,53 +1009,39 @@ def path_rules(ctx):
         if (root.hdr.get('trait') or '').endswith('Parse') and self_ty.startswith('v1::'): msg_ty = self_ty
         if (root.hdr.get('trait') or '').endswith('TryFrom') and targs and targs[0].startswith('v1::'): msg_ty = targs[0]
         if msg_ty is None: continue
-        want_msg = 'ommx.' + '.'.join(snake_mod(p, last=(i == len(msg_ty.split('::')) - 1)) for i, p in enumerate(msg_ty.split('::')))
+        want_msg = 'ommx.' + '.'.join(msg_ty.split('::'))
         for c in fb.calls:
-            is_pa = c.item == 'parse_as' and (c.trait or '').endswith('Parse')
-            is_ctx = c.item == 'context' and ('ParseError' in c.path) and len(c.args) == 3
-            if not (is_pa or is_ctx): continue
-            fa = c.args[3] if is_pa else c.args[2]; ma = c.args[2] if is_pa else c.args[1]
-            field = lit(fa)
-            mexpr = T.strip_wrappers(T.expr(fb, ma)); message = mexpr[1].strip('"') if mexpr[0] == 'const' else None
+            if not (c.item == 'parse_as' and (c.trait or '').endswith('Parse')): continue
+            field = lit_of(fb, c.args[3]); message = lit_of(fb, c.args[2])
+            if field is None:
+                ctx.undecided(R + '/field-literal', 'T-CONST', fb.site(c.bb), 'field name is not a literal'); continue
             if fb.kind == 'closure':
-                # message captured from the parent
-                s = ctx.S.slice_operand(fb, ma)
-                pass
-            if field is None: continue
-            if is_pa:
-                fs, rootl, calls = T.access_path(fb, c.args[0])
-                named = [f for a, f in fs if a == msg_ty]
-                getter = [x.split('::')[-1] for x in calls if x.startswith(msg_ty + '::')]
-                src = named[:1] or getter[:1]
-                if fb.kind == 'closure':
-                    continue     # element parse inside map(|c| c.parse_as(..)): the receiver is the closure argument
-                if len(src) != 1:
-                    ctx.undecided(R + '/field-literal', 'T-CONST', fb.site(c.bb), 'receiver does not name exactly one field'); continue
-                n += 1
-                ctx.check(src[0] == field, R + '/field-literal', 'T-CONST', fb.name, 'parse_as(.., "%s") is applied to field `%s`' % (field, src[0]), fb.site(c.bb))
-                if message is not None:
-                    ctx.check(message == want_msg, R + '/message-literal', 'T-CONST', fb.name, 'message literal "%s" in the %s parser, expected "%s"' % (message, msg_ty, want_msg), fb.site(c.bb))
-    # element parsers inside closures (hints): literal equals the field the iterator comes from
+                # closure that was not spliced (e.g. Option::map): its argument is the payload of the adaptor's receiver in the parent
+                src = []
+                pa = ctx.F.bodies.get(fb.parent)
+                if pa is not None and T.access_path(fb, c.args[0])[1] == 2:
+                    for x in pa.calls:
+                        if len(x.args) == 2 and x.item in ('map', 'and_then', 'map_or', 'map_or_else') and closure_of_operand(ctx, pa, x.args[-1]) is fb:
+                            src = receiver_field(ctx, pa, x.args[0], msg_ty)
+            else:
+                src = receiver_field(ctx, fb, c.args[0], msg_ty)
+            if len(src) != 1:
+                ctx.undecided(R + '/field-literal', 'T-CONST', fb.site(c.bb), 'receiver does not name exactly one field'); continue
+            ctx.check(src[0] == field, R + '/field-literal', 'T-CONST', fb.name, 'parse_as(.., "%s") is applied to field `%s`' % (field, src[0]), fb.site(c.bb))
+            if message is not None:
+                ctx.check(message == want_msg, R + '/message-literal', 'T-CONST', fb.name, 'message literal "%s" in the %s parser, expected "%s"' % (message, msg_ty, want_msg), fb.site(c.bb))
+    # elements of the hint lists are parsed under the name of their list
     b = ctx.F.one('v1::ConstraintHints', 'parse', trait='Parse')
     if b is not None:
         for fld in ('one_hot_constraints', 'sos1_constraints'):
             ok = False
             for c in b.calls:
-                if c.item == 'map' and 'Iterator' in (c.trait or '') and ctx.S.slice_operand(b, c.args[0]).has_field('v1::ConstraintHints', fld):
-                    for cn in ctx.S.slice_operand(b, c.args[1]).closures:
-                        cb = ctx.F.bodies.get(cn)
-                        if cb is None: continue
-                        for x in cb.calls:
-                            if x.item == 'parse_as' and lit(x.args[3]) == fld: ok = True
+                if c.item == 'parse_as' and lit_of(b, c.args[3]) == fld and receiver_field(ctx, b, c.args[0], 'v1::ConstraintHints') == [fld]: ok = True
             ctx.check(ok, R + '/hints/' + fld, 'T-CONST', b.name, 'elements of `%s` are parsed with another field name in the error path' % fld, b.site())
-    ctx.floor('C08.parse.path', 12)
-
-
-def snake_mod(p, last):
-    return p if last else p
 
 
 def check(ctx):
     validate_rules(ctx); enum_parse_rules(ctx); bound_rules(ctx); ids_rules(ctx); carry_rules(ctx); path_rules(ctx)
-    ctx.floor('C08.validate', 4); ctx.floor('C08.dup', 25); ctx.floor('C08.defined', 15); ctx.floor('C08.parse.required', 12); ctx.floor('C08.parse.bound', 7)
-    ctx.floor('C08.parse.ids', 20); ctx.floor('C08.parse.carry', 30); ctx.floor('C08.parse.default', 3)
+    # floors = decided instances on the pinned tree
+    ctx.floor('C08.validate', 4); ctx.floor('C08.dup', 31); ctx.floor('C08.defined', 19); ctx.floor('C08.parse.required', 15); ctx.floor('C08.parse.bound', 7)
+    ctx.floor('C08.parse.ids', 31); ctx.floor('C08.parse.carry', 39); ctx.floor('C08.parse.default', 4); ctx.floor('C08.parse.path', 30)
